@@ -86,7 +86,7 @@ func c15Elem(r *rand.Rand) c15El {
 			i = int64(r.IntN(41) - 20)
 		}
 		sp := fmt.Sprint(i)
-		if r.IntN(7) == 0 {
+		if r.IntN(4) == 0 {
 			// a decimal integer written with leading zeros (yq reads 010 as ten, not as octal eight)
 			i = []int64{10, 17, 7, 11, 12, 100, 777, -10, -17, 20}[r.IntN(10)]
 			if i < 0 {
